@@ -55,7 +55,8 @@ def play(rng, bind_mode, n_msgs, horizon, stale_probe=False, unbind_race=False):
         # one session in five: the bind response on the first or second connection has the right command id and an unparsable body
         bad_bind_conn = rng.choice([0, 1]) if rng.random() < 0.2 and not stale_probe else None
         obs['bad_bind_conn'] = bad_bind_conn
-        inbound_seq = [1000]
+        # one session in four: the SMSC numbers its requests in the upper half of the 32-bit range - every response echoes the number as it is
+        inbound_seq = [rng.choice([0x80000000, 0x9ABCDE00, 0xFFFFFF00]) if rng.random() < 0.25 else 1000]
 
         def on_pdu(conn, pdu):
             ps = vsess.split_pdus(pdu)[0]
